@@ -16,6 +16,7 @@ package analysis
 //@   props C17
 //@   requires len(paths) > 0
 //@   ensures result == "" || (forall i int :: 0 <= i && i < len(paths) ==> isDirAncestor(result, paths[i]))
+//@   ensures (forall i int :: 0 <= i && i < len(paths) ==> len(paths[i]) > 0 && paths[i][0] == '/') ==> result != ""
 //@   loop 1 invariant 0 <= index && index <= len(first) && first == paths[0]
 //@   loop 1 invariant forall p, k int :: 0 <= p && p < len(paths) && 0 <= k && k < index ==> k < len(paths[p]) && paths[p][k] == first[k]
 //@   loop 1 decreases len(first) - index
@@ -25,6 +26,7 @@ package analysis
 //@   loop 3 invariant atBoundary <==> (forall p int :: 0 <= p && p < j3 ==> !(index < len(paths[p]) && paths[p][index] != '/'))
 //@   loop 4 invariant 0 <= index && index <= len(first)
 //@   loop 4 invariant forall p, k int :: 0 <= p && p < len(paths) && 0 <= k && k < index ==> k < len(paths[p]) && paths[p][k] == first[k]
+//@   loop 4 invariant (forall i int :: 0 <= i && i < len(paths) ==> len(paths[i]) > 0 && paths[i][0] == '/') ==> index >= 1
 //@   loop 4 decreases index
 
 //@ func selectByFile
@@ -46,6 +48,10 @@ package analysis
 //@   ensures (exists i int :: 0 <= i && i < len(sourceFiles) && second(os.Stat(sourceFiles[i])) != nil) ==> result3 != nil
 //@   ensures result3 == nil ==> packages.PrintErrors(onceResult("golang.org/x/tools/go/packages.Load", 1, "[]*packages.Package")) == 0
 //@   ensures result3 == nil ==> onceResult("golang.org/x/tools/go/packages.Load", 2, "error") == nil
+//@   ensures result3 != nil ==> (exists i int :: 0 <= i && i < len(sourceFiles) && (second(os.Stat(sourceFiles[i])) != nil || second(filepath.Abs(sourceFiles[i])) != nil))
+//@           || onceResult("golang.org/x/tools/go/packages.Load", 2, "error") != nil
+//@           || packages.PrintErrors(onceResult("golang.org/x/tools/go/packages.Load", 1, "[]*packages.Package")) > 0
+//@           || (exists i int :: 0 <= i && i < len(sourceFiles) && (forall a, b int :: 0 <= a && a < len(onceResult("golang.org/x/tools/go/packages.Load", 1, "[]*packages.Package")) && 0 <= b && b < len(onceResult("golang.org/x/tools/go/packages.Load", 1, "[]*packages.Package")[a].GoFiles) ==> onceResult("golang.org/x/tools/go/packages.Load", 1, "[]*packages.Package")[a].GoFiles[b] != filepath.Abs(sourceFiles[i])))
 //@   loop 1 index i1
 //@   loop 1 invariant len(dirs) == len(sourceFiles) && len(patterns) == len(sourceFiles)
 //@   loop 1 invariant forall k int :: 0 <= k && k < i1 ==> second(os.Stat(sourceFiles[k])) == nil && dirs[k] == filepath.Dir(filepath.Abs(sourceFiles[k]))
